@@ -16,7 +16,7 @@ echo "--- build"
 go build $LD ./internal/... ./pkg/... 2>&1 | tail -3
 echo "--- baseline packages WITH change"
 mv "$PKG/zz_seed_demo_test.go" /tmp/zz_seed_demo_$ID.go
-TMPDIR=$(mktemp -d) go test -mod=mod -vet=off -count=1 ./internal/ledger/... ./internal/model/... ./internal/repo/... ./pkg/order/ ./pkg/order/mempool/... ./pkg/ratelimiter/... ./pkg/vm/wasm/... 2>&1 | grep -v "no test files" | tail -8
+TMPDIR=$(mktemp -d) go test -mod=mod -vet=off -count=1 ./internal/ledger/... ./internal/model/... ./internal/repo/... ./pkg/order/ ./pkg/order/mempool/... ./pkg/ratelimiter/... ./pkg/vm/wasm/... 2>&1 | grep -v "no test files" | grep -v "^ld:\|wasm.test\|GNU-stack\|deprecated" | tail -14
 mv /tmp/zz_seed_demo_$ID.go "$PKG/zz_seed_demo_test.go"
 echo "--- demo WITH change (expect FAIL)"
 TMPDIR=$(mktemp -d) go test -mod=mod -vet=off -count=1 $LD -run "$RUN" ./$PKG/ 2>&1 | grep -v "^\s\|^===\|ld: " | tail -4
